@@ -154,6 +154,13 @@ func (x *extractor) parseBody(stmts []ast.Stmt, key string, atEOF bool) *action 
 	}
 	for i < len(stmts) {
 		s := stmts[i]
+		// every element read of the input inside an action must be data[p], and only where a byte is present
+		if bad := x.unsafeIndex(s, atEOF); bad != nil {
+			if atEOF {
+				return fail(bad.Pos(), "the input is indexed at end of input (p == len(data)): index out of range")
+			}
+			return fail(bad.Pos(), "the input is indexed with something other than the cursor inside an action")
+		}
 		switch s := s.(type) {
 		case *ast.EmptyStmt:
 			i++
@@ -919,4 +926,28 @@ func (x *extractor) parseStep(ifs *ast.IfStmt, pp types.Object, key string) (Ste
 		}
 	}
 	return st, true
+}
+
+// unsafeIndex finds an element read data[...] in stmt that is not provably in range:
+// at end of input any data[i]; elsewhere anything but data[p].
+func (x *extractor) unsafeIndex(stmt ast.Stmt, atEOF bool) ast.Node {
+	var bad ast.Node
+	ast.Inspect(stmt, func(n ast.Node) bool {
+		if bad != nil {
+			return false
+		}
+		ie, ok := n.(*ast.IndexExpr)
+		if !ok {
+			return true
+		}
+		if x.obj(ie.X) != x.m.Roles.Data {
+			return true
+		}
+		if atEOF || x.obj(ie.Index) != x.m.Roles.P {
+			bad = ie
+			return false
+		}
+		return true
+	})
+	return bad
 }
